@@ -51,3 +51,23 @@ Definition tbs_field_ok (kv : string * option (list Z)) : Prop :=
 (* two hex digits and their value *)
 Definition tbs_is_hex (c : Z) : Prop := 48 <= c <= 57 \/ 65 <= c <= 70 \/ 97 <= c <= 102.
 Definition tbs_hex_val (c : Z) : Z := if c <=? 57 then c - 48 else if c <=? 70 then c - 55 else c - 87.
+
+(* ---- fields that are to be ignored (clause 3) ---- *)
+(* the seven NMEA 4.10 parameter codes c d n r s t g *)
+Definition tbs_known_codes : list (list Z) := [[99]; [100]; [110]; [114]; [115]; [116]; [103]].
+
+Section Extra.
+  Variable uni : Z -> list Z -> option Z.     (* int() of non-ASCII text, Prim/PyText.v *)
+
+  (* the text of a group: three parts without '-' that int() accepts, joined by '-' *)
+  Definition tbs_wellformed_group (val : list Z) : Prop :=
+    exists a b c x y z, val = a ++ 45 :: b ++ 45 :: c /\ ~ In 45 a /\ ~ In 45 b /\ ~ In 45 c /\
+                        pt_int uni 10 a = Prim.Exn.Ok x /\ pt_int uni 10 b = Prim.Exn.Ok y /\ pt_int uni 10 c = Prim.Exn.Ok z.
+
+  (* unknown or malformed: not text, no ':', a code that is none of the seven, or a group that is not three integers *)
+  Definition tbs_extra_field (f : list Z) : Prop :=
+    pt_utf8_valid f = false
+    \/ ~ In 58 f
+    \/ (exists spec val, f = spec ++ 58 :: val /\ ~ In 58 spec /\ ~ In spec tbs_known_codes)
+    \/ (exists val, f = 103 :: 58 :: val /\ ~ tbs_wellformed_group val).
+End Extra.
